@@ -139,6 +139,7 @@ func unsupported(format string, args ...interface{}) {
 // Exec is the symbolic executor for one function under contract (or one lemma).
 type Exec struct {
 	errAlias  map[types.Object]types.Object // target variable of errors.As -> the error variable it was extracted from
+	seqLens   map[string]int // parameters modelled as fixed-length sequences (seqlen clause)
 	specDepth int // > 0 while a function body is executed on behalf of contract text
 	U     *Universe
 	Pkg   *packages.Package
@@ -493,6 +494,18 @@ func mergeVal(g *Term, a, b Value) Value {
 		panic(mergeFail{"nil"})
 	case FuncV:
 		return av
+	case SeqV:
+		if bv, ok := b.(SeqV); ok && len(av.Elems) == len(bv.Elems) {
+			out := SeqV{Len: Ite(g, av.Len, bv.Len), Typ: av.Typ}
+			for i := range av.Elems {
+				if sameValue(av.Elems[i], bv.Elems[i]) {
+					out.Elems = append(out.Elems, av.Elems[i])
+				} else {
+					out.Elems = append(out.Elems, mergeVal(g, av.Elems[i], bv.Elems[i]))
+				}
+			}
+			return out
+		}
 	case HashV:
 		if bv, ok := b.(HashV); ok && sameHash(av, bv) {
 			return av
@@ -615,6 +628,17 @@ func sameValue(a, b Value) bool {
 		}
 		for k, w := range av.F {
 			if !sameValue(w, bv.F[k]) {
+				return false
+			}
+		}
+		return true
+	case SeqV:
+		bv, ok := b.(SeqV)
+		if !ok || len(av.Elems) != len(bv.Elems) || !termEq(av.Len, bv.Len) {
+			return false
+		}
+		for i := range av.Elems {
+			if !sameValue(av.Elems[i], bv.Elems[i]) {
 				return false
 			}
 		}
